@@ -32,6 +32,10 @@ COND_MAX = 1e3
 
 def fmt_c(z):
     z = complex(z)
+    if not (np.isfinite(z.real) and np.isfinite(z.imag)):
+        # a non-finite value observed on the implementation where the model computes a number: the text differs
+        # from anything the model prints (broken correspondence), it is not a fault of the machinery
+        return 'nonfinite'
     re = rat(z.real)
     return re if z.imag == 0 else re + ':' + rat(z.imag)
 
@@ -917,6 +921,21 @@ def gen_segments(rng, npix, nseg):
     return S
 
 
+def test_field(npix):
+    """the electric field sent through the mirrors: small complex dyadics, different in every pixel class"""
+    return np.array([(1 + i % 3) / 2.0 + 1j * ((i % 2) / 2.0) for i in range(npix)], dtype=complex)
+
+
+def eval_formal_field(got):
+    """'ok AMPS TURNS hit|miss' of the model -> AMPS · exp(2πi·TURNS), the turns reduced mod 1 exactly"""
+    t = got.split()
+    amps = parse_vec(t[1])
+    inner = t[2][1:-1]
+    turns = [Fraction(x.split(':')[0]) for x in inner.split(',')] if inner else []
+    ph = np.array([float(q - (q.numerator // q.denominator)) for q in turns], dtype=float)
+    return amps * np.exp(2j * np.pi * ph)
+
+
 @contextlib.contextmanager
 def patched_randn(values):
     """dm.random draws from np.random.randn: supply the draw as data for the duration of a call."""
@@ -1011,7 +1030,8 @@ class MirrorRun:
         last_mut = 'init'
         edited_since_read = False
         wl = 0.5
-        wf = hcipy.Wavefront(hcipy.Field(np.ones(npix), grid), wl)
+        self.E = test_field(npix)
+        wf = hcipy.Wavefront(hcipy.Field(self.E.copy(), grid), wl)
         for op in case['ops']:
             try:
                 dm, IF, cur, last_mut, edited_since_read = self.one(op, dm, IF, grid, handles, cur, last_mut, edited_since_read, exact, wf, wl)
@@ -1061,10 +1081,15 @@ class MirrorRun:
             elif o == 'segset':
                 dm.set_segment_actuators(op['id'], op['p'], op['t'], op['tl'])
                 nseg = nact // 3
-                for off, x in ((0, op['p']), (nseg, op['t']), (2 * nseg, op['tl'])):
-                    self.emit('C14 mirror edit %d %d %s' % (cur, op['id'] + off, rat(x)), 'ok')
-                if tuple(dm.get_segment_actuators(op['id'])) != (op['p'], op['t'], op['tl']):
+                # the model executes set_segment_actuators / get_segment_actuators themselves (setSegment / getSegment)
+                self.emit('C14 mirror segset %d %d %s %s %s' % (nseg, op['id'], rat(op['p']), rat(op['t']), rat(op['tl'])), 'ok')
+                got_seg = tuple(float(x) for x in dm.get_segment_actuators(op['id']))
+                if got_seg != (op['p'], op['t'], op['tl']):
                     self.bad.append(('segment-actuators', 'get_segment_actuators does not return what set_segment_actuators stored'))
+                self.emit('C14 mirror segget %d %d' % (nseg, op['id']), 'ok %s %s %s' % tuple(rat(x) for x in got_seg))
+                other = (op['id'] + 1) % nseg
+                self.emit('C14 mirror segget %d %d' % (nseg, other), 'ok %s %s %s' % tuple(rat(float(x)) for x in dm.get_segment_actuators(other)))
+                self.count('mirror-segment-set-get')
                 last_mut = 'inplace-set-segment'
                 edited_since_read = True
             elif o == 'flatten':
@@ -1131,9 +1156,10 @@ class MirrorRun:
                 elif how == 'phase_for':
                     got = np.asarray(dm.phase_for(wl)); want = 2 * ref * k
                 elif how == 'forward':
-                    got = np.asarray(dm.forward(wf).electric_field); want = np.exp(2j * k * ref)
+                    out_wf = dm.forward(wf)
+                    got = np.asarray(out_wf.electric_field); want = self.E * np.exp(2j * k * ref)
                 else:
-                    got = np.asarray(dm.backward(wf).electric_field); want = np.exp(-2j * k * ref)
+                    got = np.asarray(dm.backward(wf).electric_field); want = self.E * np.exp(-2j * k * ref)
                 after = getattr(dm, '_actuators_for_cached_surface', ABSENT)
                 ok_exact = got.shape == want.shape and np.array_equal(got, want)
                 ok_tol = got.shape == want.shape and bool(np.all(np.abs(got - want) <= TOL * max(1.0, float(np.abs(want).max(initial=0)))))
@@ -1154,9 +1180,31 @@ class MirrorRun:
                         else:
                             self.numeric[idx] = np.asarray(got).copy()
                             self.emit('C14 mirror opd', 'numeric')
+                    elif how == 'phase_for':
+                        # the model executes phase_for in turns (readPhase): 2π · its answer
+                        self.numeric[idx] = np.asarray(got) / (2 * np.pi)
+                        self.emit('C14 mirror phase %s' % rat(wl), 'numeric')
                     else:
-                        self.emit('C14 mirror read', 'hit-only')
+                        # forward / backward on the formal field E·exp(2πi·0) (Mirror.forward / Mirror.backward)
+                        self.numeric[idx] = np.asarray(got).copy()
+                        self.emit('C14 mirror %s %s %s %s' % (how, rat(wl), fmt_vec(self.E), fmt_vec(np.zeros(npix))), 'numeric')
                     self.nreads += 1
+                    if how == 'forward':
+                        # back through the mirror: the wavefront must come back unchanged, its power conserved
+                        # (mirror_backward_forward_id); the model is given the reflected field in formal form
+                        before = getattr(dm, '_actuators_for_cached_surface', ABSENT)
+                        back = np.asarray(dm.backward(out_wf).electric_field)
+                        after = getattr(dm, '_actuators_for_cached_surface', ABSENT)
+                        if not np.all(np.abs(back - self.E) <= 1e-12 * np.abs(self.E).max()):
+                            self.bad.append(('forward-backward-roundtrip', '%s: backward(forward(wf)) differs from wf by %.3g' % (kind, float(np.abs(back - self.E).max()))))
+                        if not abs(float(np.sum(np.abs(got) ** 2)) - float(np.sum(np.abs(self.E) ** 2))) <= 1e-12 * float(np.sum(np.abs(self.E) ** 2)):
+                            self.bad.append(('forward-power', '%s: forward changes the total power' % kind))
+                        idx = len(self.lines)
+                        self.hits[idx] = None if before is ABSENT else ('hit' if after is before else 'miss')
+                        self.numeric[idx] = back.copy()
+                        self.emit('C14 mirror backward %s %s %s' % (rat(wl), fmt_vec(self.E), fmt_vec(2 * ref / wl)), 'numeric')
+                        self.nreads += 1
+                        self.count('mirror-forward-backward-roundtrip')
                     before = getattr(dm, '_actuators_for_cached_surface', ABSENT)
                     surf_obj = dm.surface
                     after = getattr(dm, '_actuators_for_cached_surface', ABSENT)
@@ -1368,12 +1416,12 @@ class ExtremeRun(MirrorRun):
             self.bad.append(('mirror-construct-raises ' + kind, 'constructing the %s mirror raised %s: %s' % (kind, type(e).__name__, str(e)[:80])))
             return self
         self.emit('C14 mirror new %d %d %s' % (IF.shape[0], IF.shape[1], fmt_mat(IF)), 'ok')
-        self.count('extreme-kind:' + kind)
         self.count('extreme-nact:%d' % nact)
         self.count('extreme-model:' + ('driven along (all values finite)' if self.model_on else 'oracle only (non-finite values)'))
         wl = case['wl']
+        self.E = test_field(npix)
         st = {'dm': dm, 'IF': IF, 'handles': [dm.actuators], 'cur': 0, 'last': 'init', 'wl': wl,
-              'wf': hcipy.Wavefront(hcipy.Field(np.ones(npix), grid), wl), 'prev': None, 'dirty': None, 'withdrawn': False}
+              'wf': hcipy.Wavefront(hcipy.Field(self.E.copy(), grid), wl), 'prev': None, 'dirty': None, 'withdrawn': False}
         for op in case['ops']:
             try:
                 with np.errstate(all='ignore'):
@@ -1414,8 +1462,8 @@ class ExtremeRun(MirrorRun):
             dm.set_segment_actuators(op['id'], p, t, tl)
             nseg = nact // 3
             if self.model_on:
-                for off, x in ((0, p), (nseg, t), (2 * nseg, tl)):
-                    self.emit('C14 mirror edit %d %d %s' % (st['cur'], op['id'] + off, rat(x)), 'ok')
+                self.emit('C14 mirror segset %d %d %s %s %s' % (nseg, op['id'], rat(p), rat(t), rat(tl)), 'ok')
+                self.emit('C14 mirror segget %d %d' % (nseg, op['id']), 'ok %s %s %s' % tuple(rat(float(x)) for x in dm.get_segment_actuators(op['id'])))
             if not np.array_equal(np.array(dm.get_segment_actuators(op['id']), dtype=float), np.array([p, t, tl]), equal_nan=True):
                 self.bad.append(('segment-actuators', 'get_segment_actuators does not return what set_segment_actuators stored'))
             st['last'] = 'inplace-set-segment'
@@ -1480,8 +1528,8 @@ class ExtremeRun(MirrorRun):
             got = np.asarray((dm.forward if how == 'forward' else dm.backward)(wf).electric_field)
             fr = np.asarray((fresh.forward if how == 'forward' else fresh.backward)(wf).electric_field)
             phi = 2 * k * ref
-            want = np.exp(1j * sgn * phi)
-            tol = 2 * k * XTOL * mag + 2e-15 * np.abs(phi) + 1e-14
+            want = self.E * np.exp(1j * sgn * phi)
+            tol = 2 * (2 * k * XTOL * mag + 2e-15 * np.abs(phi) + 1e-14)
         after = getattr(dm, '_actuators_for_cached_surface', ABSENT)
         where = '%s (%d actuators) read through %s after %s' % (kind, nact, how, st['last'])
         hist = ' [history: a non-finite / out-of-scale command was read earlier%s]' % (' and has been withdrawn' if st['withdrawn'] else '') if st['dirty'] else ''
@@ -1535,8 +1583,12 @@ class ExtremeRun(MirrorRun):
             if how == 'opd':
                 self.numeric[idx] = np.asarray(got).copy(); self.numtol[idx] = 2 * XTOL * mag
                 self.emit('C14 mirror opd', 'numeric')
+            elif how == 'phase_for':
+                self.numeric[idx] = np.asarray(got) / (2 * np.pi); self.numtol[idx] = tol / (2 * np.pi)
+                self.emit('C14 mirror phase %s' % rat(wl), 'numeric')
             else:
-                self.emit('C14 mirror read', 'hit-only')
+                self.numeric[idx] = np.asarray(got).copy(); self.numtol[idx] = np.where(tol < 0.5, tol, np.inf)
+                self.emit('C14 mirror %s %s %s %s' % (how, rat(wl), fmt_vec(self.E), fmt_vec(np.zeros(npix))), 'numeric')
             self.nreads += 1
             before = getattr(dm, '_actuators_for_cached_surface', ABSENT)
             surf_obj = dm.surface
@@ -1681,7 +1733,8 @@ def directed_cases():
 # ---------------------------------------------------------------------------------------------
 
 def is_read(line):
-    return line.endswith('mirror read') or line.endswith('mirror opd')
+    t = line.split()
+    return len(t) >= 3 and t[1] == 'mirror' and t[2] in ('read', 'opd', 'phase', 'forward', 'backward')
 
 
 def execute(case):
@@ -1761,7 +1814,14 @@ def run(ctx):
                 if got.startswith('err rank'):
                     ctx.disagree(stream, {'line': r.lines[j], 'impl': 'independent modes', 'model': got})
                     break
-                vec = parse_vec(got.split()[1])
+                if not got.startswith('ok'):
+                    ctx.disagree(stream, {'line': r.lines[j], 'impl': 'answers', 'model': got, 'case': case})
+                    break
+                tk = r.lines[j].split()
+                if tk[1] == 'mirror' and tk[2] in ('forward', 'backward'):
+                    vec = eval_formal_field(got)
+                else:
+                    vec = parse_vec(got.split()[1])
                 if r.lines[j].endswith('mirror ideal') and got.startswith('ok'):
                     vec = np.concatenate([vec, parse_vec(got.split()[2])])
                 x = np.asarray(r.numeric[j])
